@@ -129,7 +129,7 @@ class Canon:
         self.now = now
         self.memo: dict[int, int] = {}
         self.keep: list = []   # keep visited objects alive so ids are not reused
-        self.out: list[bytes] = []
+        self.out: list[str] = []
         self.unmergeable: set[str] = set()
         self.skip_attrs = set(skip_attrs)
         self.extra_rules = extra_rules or {}
@@ -137,15 +137,17 @@ class Canon:
 
     # -- helpers
     def w(self, *parts):
+        ap = self.out.append
         for p in parts:
-            if isinstance(p, bytes):
-                self.out.append(p)
+            if type(p) is str:
+                ap(p)
+            elif type(p) is bytes:
+                ap(p.decode("latin1"))
             else:
-                self.out.append(str(p).encode())
-            self.out.append(b"\x1f")
+                ap(str(p))
 
     def digest(self) -> bytes:
-        h = hashlib.blake2b(b"".join(self.out), digest_size=16).digest()
+        h = hashlib.blake2b("\x1f".join(self.out).encode("utf-8", "surrogatepass"), digest_size=16).digest()
         if self.unmergeable:
             h = hashlib.blake2b(h + str(next(_NONCE)).encode() + str(id(self)).encode(), digest_size=16).digest()
         return h
@@ -170,14 +172,23 @@ class Canon:
     # -- main dispatch
     def visit(self, o):
         t = type(o)
-        if o is None or t is bool or t is int or t is str:
-            self.w(t.__name__[0], o)
+        if t is int:
+            self.out.append("i%d" % o)
+            return
+        if t is str:
+            self.out.append("s" + o)
+            return
+        if o is None:
+            self.out.append("N")
+            return
+        if t is bool:
+            self.out.append("T" if o else "F")
             return
         if t is float:
-            self.w("f", repr(o))
+            self.out.append("f" + repr(o))
             return
         if t is bytes or t is bytearray:
-            self.w("b", len(o), bytes(o))
+            self.out.append("b%d:%s" % (len(o), bytes(o).decode("latin1")))
             return
         if isinstance(o, enum.Enum):
             self.w("E", t.__qualname__, o.name)
